@@ -305,6 +305,27 @@ func drawCheck(c Case, plain [][]lineG, rich [][]lineG) string {
 			return
 		}
 		rows := surfaceRows(s)
+		// the same instance in a window that was shorter before: drawing is a
+		// function of the text and the constraint, not of earlier frames
+		for _, h := range []int{len(plain) - 1, 0} {
+			if h < 0 {
+				continue
+			}
+			t2 := text.New(strings.Join(c.Text, ""))
+			if _, err := t2.Draw(ctx(c.Width, h)); err != nil {
+				msg = "Text.Draw error: " + err.Error()
+				return
+			}
+			s2, err := t2.Draw(ctx(c.Width, 1000))
+			if err != nil {
+				msg = "Text.Draw error: " + err.Error()
+				return
+			}
+			if r2 := surfaceRows(s2); strings.Join(r2, "\n") != strings.Join(rows, "\n") {
+				msg = fmt.Sprintf("Text.Draw(%q, width %d): an instance drawn before with height %d shows %q, a new one shows %q", strings.Join(c.Text, ""), c.Width, h, r2, rows)
+				return
+			}
+		}
 		if len(rows) != len(plain) {
 			msg = fmt.Sprintf("Text.Draw(%q, width %d) has %d rows, the scanner emits %d lines %s", strings.Join(c.Text, ""), c.Width, len(rows), len(plain), fmtLines(plain))
 			return
@@ -327,6 +348,25 @@ func drawCheck(c Case, plain [][]lineG, rich [][]lineG) string {
 			return
 		}
 		rows = surfaceRows(s2)
+		for _, h := range []int{len(rich) - 1} {
+			if h < 0 {
+				continue
+			}
+			rt2 := richtext.New(segs)
+			if _, err := rt2.Draw(ctx(c.Width, h)); err != nil {
+				msg = "RichText.Draw error: " + err.Error()
+				return
+			}
+			s3, err := rt2.Draw(ctx(c.Width, 1000))
+			if err != nil {
+				msg = "RichText.Draw error: " + err.Error()
+				return
+			}
+			if r3 := surfaceRows(s3); strings.Join(r3, "\n") != strings.Join(rows, "\n") {
+				msg = fmt.Sprintf("RichText.Draw(%q, width %d): an instance drawn before with height %d shows %q, a new one shows %q", strings.Join(c.Text, ""), c.Width, h, r3, rows)
+				return
+			}
+		}
 		if len(rows) != len(rich) {
 			msg = fmt.Sprintf("RichText.Draw(%q, width %d) has %d rows, the scanner emits %d lines %s", strings.Join(c.Text, ""), c.Width, len(rows), len(rich), fmtLines(rich))
 			return
